@@ -68,6 +68,10 @@ Proof. reflexivity. Qed.
 Lemma gen_quoted_pairs_literals : quoted_pairs_literals = [[92; 34]; [92]; [92; 92]; [34]; [92; 34]].
 Proof. reflexivity. Qed.
 
+(* Msg.Reset re-allocates the address map: no enumerated list of keys that could forget one (EnvelopeFrom) *)
+Lemma gen_reset_reallocates : reset_reallocates_addr_header = true.
+Proof. reflexivity. Qed.
+
 (* ------------------------------------------------------------------ *)
 (* the display name of a ...Format call                                *)
 (* ------------------------------------------------------------------ *)
@@ -202,10 +206,10 @@ Section Proofs.
     intros. unfold MsgAddr.set_addr_header. destruct (parse_all vals); simpl; [apply store_other; assumption|reflexivity].
   Qed.
 
-  Lemma apply_call_other : forall m c k, k <> call_key c ->
+  Lemma apply_call_other : forall m c k, c <> CReset -> k <> call_key c ->
     lookup (fst (apply_call m c)) k = lookup m k.
   Proof.
-    intros m c k Hk. destruct c; simpl in *; unfold MsgAddr.add_addr, MsgAddr.set_addr_header_ign;
+    intros m c k Hr Hk. destruct c; try congruence; simpl in *; unfold MsgAddr.add_addr, MsgAddr.set_addr_header_ign;
       try (apply set_addr_header_other; assumption); simpl; apply store_other; assumption.
   Qed.
 
@@ -221,7 +225,7 @@ Section Proofs.
     { intros m m' h vals E. unfold MsgAddr.set_addr_header. destruct (parse_all vals); simpl.
       - rewrite !store_same, E. split; reflexivity.
       - split; [exact E|reflexivity]. }
-    intros m m' c E. destruct c; simpl in *; unfold MsgAddr.add_addr, MsgAddr.set_addr_header_ign;
+    intros m m' c E. destruct c; try (split; reflexivity); simpl in *; unfold MsgAddr.add_addr, MsgAddr.set_addr_header_ign;
       try (apply S; assumption); try (rewrite E; apply S; assumption);
       simpl; rewrite !store_same, E; split; reflexivity.
   Qed.
@@ -257,16 +261,18 @@ Section Proofs.
   Proof.
     unfold MsgAddr.run. induction calls as [|c calls IH]; intros m0 H; simpl; [exact H|].
     apply IH.
+    assert (R : c = CReset \/ c <> CReset) by (destruct c; (left; reflexivity) || (right; discriminate)).
+    destruct R as [->|NR]; [simpl; apply Nat.le_0_l|].
     destruct (bytes_eqb (call_key c) hdr_from) eqn:E.
     - apply bytes_eqb_eq in E.
       assert (K : forall m h vals, h = hdr_from -> (length (lookup m hdr_from) <= 1)%nat ->
                  (length (lookup (fst (set_addr_header m h vals)) hdr_from) <= 1)%nat).
       { intros m h vals -> Hm. unfold MsgAddr.set_addr_header. destruct (parse_all vals); simpl; [|exact Hm].
         rewrite store_same. unfold stored. rewrite bytes_eqb_refl. destruct l; simpl; [exact Hm|lia]. }
-      destruct c; simpl in *; unfold MsgAddr.add_addr, MsgAddr.set_addr_header_ign; try (apply K; assumption);
+      destruct c; try congruence; simpl in *; unfold MsgAddr.add_addr, MsgAddr.set_addr_header_ign; try (apply K; assumption);
         simpl; rewrite E, store_same; unfold stored; rewrite bytes_eqb_refl;
         match goal with |- context [match ?l with _ => _ end] => destruct l end; simpl; try assumption; lia.
-    - rewrite apply_call_other; [exact H|]. apply bytes_eqb_neq in E. congruence.
+    - rewrite apply_call_other; [exact H|exact NR|]. apply bytes_eqb_neq in E. congruence.
   Qed.
 
   (* ---------------- reference semantics of the setters ---------------- *)
@@ -364,7 +370,7 @@ Section Proofs.
     Lemma apply_call_from_parse : forall m c, from_parse m -> clean_call c -> from_parse (fst (apply_call m c)).
     Proof.
       intros m c Hm C. unfold clean_call in C.
-      destruct c; simpl in *; unfold MsgAddr.set_addr_header_ign;
+      destruct c; try (intros k a Ha; destruct Ha); simpl in *; unfold MsgAddr.set_addr_header_ign;
         try (apply set_addr_header_from_parse; assumption);
         try (rewrite add_addr_spec by exact Hm; apply spec_add_from_parse; [exact Hm|inversion C; assumption]);
         simpl; apply store_from_parse; try exact Hm; apply parse_valid_from_parse; exact C.
@@ -424,7 +430,7 @@ Section Proofs.
       repeat split.
       - rewrite L, map_app. reflexivity.
       - rewrite L, map_app. reflexivity.
-      - intros k Hk. unfold m'. apply apply_call_other. rewrite K. exact Hk.
+      - intros k Hk. unfold m'. apply apply_call_other; [destruct Hc as [->|[n [ad [-> _]]]]; discriminate|rewrite K; exact Hk].
       - rewrite E. unfold spec_add. rewrite Pv. reflexivity.
     Qed.
     (* H-name: on a string of the form  DQUOTE ... DQUOTE SP LESS-THAN ...  the address oracle's Name is what
@@ -491,9 +497,11 @@ Section Proofs.
     call_key c <> hdr_bcc -> eq_off_bcc (fst (apply_call m c)) (fst (apply_call m' c)).
   Proof.
     intros m m' c H Hc k Hk.
+    assert (R : c = CReset \/ c <> CReset) by (destruct c; (left; reflexivity) || (right; discriminate)).
+    destruct R as [->|NR]; [reflexivity|].
     destruct (bytes_eqb k (call_key c)) eqn:E.
     - apply bytes_eqb_eq in E. subst k. apply apply_call_same_dep. apply H. exact Hc.
-    - apply bytes_eqb_neq in E. rewrite !apply_call_other by exact E. apply H. exact Hk.
+    - apply bytes_eqb_neq in E. rewrite !apply_call_other by (try exact E; exact NR). apply H. exact Hk.
   Qed.
 
   Lemma run_eq_off_bcc : forall calls m m', eq_off_bcc m m' ->
@@ -501,7 +509,7 @@ Section Proofs.
   Proof.
     unfold MsgAddr.run. induction calls as [|c calls IH]; intros m m' H; simpl; [exact H|].
     unfold not_bcc_call at 1. destruct (bytes_eqb (call_key c) hdr_bcc) eqn:E; simpl.
-    - apply IH. intros k Hk. rewrite apply_call_other; [apply H; exact Hk|].
+    - apply IH. intros k Hk. rewrite apply_call_other; [apply H; exact Hk|intro Z; subst c; discriminate|].
       apply bytes_eqb_eq in E. congruence.
     - apply IH. apply apply_call_eq_off_bcc; [exact H|]. apply bytes_eqb_neq. exact E.
   Qed.
@@ -513,6 +521,19 @@ Section Proofs.
   Proof.
     intros. apply render_addr_eq_off_bcc. apply run_eq_off_bcc. intros k _. reflexivity.
   Qed.
+  (* ---------------- Reset ---------------- *)
+  Lemma run_app : forall a b m, run (a ++ b) m = run b (run a m).
+  Proof. intros. unfold MsgAddr.run. apply fold_left_app. Qed.
+
+  (* after Reset the state is the empty address state whatever preceded: every later observation is a function
+     of the calls after the last Reset only *)
+  Theorem reset_forgets : forall pre post m0, run (pre ++ CReset :: post) m0 = run post [].
+  Proof. intros. rewrite run_app. reflexivity. Qed.
+
+  Theorem reset_clears : forall pre m0,
+    let m := run (pre ++ [CReset]) m0 in
+    (forall k, lookup m k = []) /\ get_sender m = None /\ get_recipients m = [] /\ render_addr m = [].
+  Proof. intros pre m0 m. unfold m. rewrite reset_forgets. repeat split. Qed.
 End Proofs.
 
 (* ------------------------------------------------------------------ *)
